@@ -283,6 +283,43 @@ def run(ctx):
             res.violations.append({'what': 'arithmetic / & coercion through a formula', 'input': {'formula': form},
                                    'expected': want, 'got': got})
 
+    # ---- (3b) arithmetic with numpy scalar operands must equal the arithmetic on the Python numbers they stand for
+    import numpy
+    big = [3, -2, 2 ** 40, 2 ** 62, -(2 ** 62), 10 ** 15 + 1, 2.5, 1e200]
+    npv = []
+    for v in big:
+        npv.append((v, numpy.int64(v) if isinstance(v, int) else numpy.float64(v)))
+    ops = dict(ARITH)
+    ops['POW'] = ('POWER', '^')
+    for o, (fname, sym) in ops.items():
+        for (a, na), (b, nb) in itertools.product(npv, repeat=2):
+            if o == 'POW' and (abs(b) > 64 or abs(a) > 2 ** 40):
+                continue
+            want = call_real(xl.FUNCTIONS[fname], a, b)
+            for x, y, how in ((na, nb, 'both numpy'), (na, b, 'left numpy'), (a, nb, 'right numpy')):
+                got = call_real(xl.FUNCTIONS[fname], x, y)
+                res.evaluations += 1
+                res.count('arith-numpy')
+                res.nontrivial.add(('arith-numpy', o, repr(a), repr(b), how))
+                if not (same_value(got, want) or close(got, want)):
+                    res.violations.append({'what': f'{fname} on numpy scalar operands differs from the Python numbers',
+                                           'input': {'op': o, 'left': repr(a), 'right': repr(b), 'spelling': how},
+                                           'expected': want, 'got': got})
+            # the same with the numpy value stored in a cell
+            m = ModelCompiler().read_and_parse_dict({'Sheet1!A1': 1, 'Sheet1!A2': 1, 'Sheet1!C1': f'=A1{sym}A2',
+                                                     'Sheet1!C2': f'={fname}(A1,A2)'})
+            m.set_cell_value('Sheet1!A1', na)
+            m.set_cell_value('Sheet1!A2', nb)
+            ev = Evaluator(m)
+            for addr in ('Sheet1!C1', 'Sheet1!C2'):
+                got = call_real(ev.evaluate, addr)
+                res.evaluations += 1
+                res.count('arith-numpy-cell')
+                if not (same_value(got, want) or close(got, want)):
+                    res.violations.append({'what': f'{fname} on cells holding numpy scalars differs from the Python numbers',
+                                           'input': {'op': o, 'A1': repr(na), 'A2': repr(nb), 'cell': addr},
+                                           'expected': want, 'got': got})
+
     # ---- (4) function names: case-insensitive, _xlfn. ignored
     names = ['sum', 'Sum', 'SUM', '_xlfn.SUM', '_XLFN.sum', '_xlfn.Sum', 'sUm']
     reqs = ['\t'.join(['C08', 'name', w_text(n)[2:]]) for n in names]
